@@ -9,6 +9,16 @@ TRUST = ("Trusted base: clang 14 front end and its debug info, the LLVM-14 IR re
          "the rule tables documented in DESIGN.md. ")
 
 CLAIMS = {
+    "C18": dict(
+        category="other",
+        technique="static analysis: interval abstract interpretation with relational guard facts at all constructor call sites and in the encoders (length, VLA and array bounds), literal-type rule, CFG path rule (one transmit, none after rejection), exhaustive constant-propagation over 0..255 of documented parameter ranges",
+        text=("Decides for all 73 constructor call sites / 66 encoders: literal type < 0x80; payload length <= 121 (length byte <= 127, no 8-bit wrap); at most one transmit per path and "
+              "none after a logged rejection; every variable subscript of encoder/constructor arrays and VLAs in range (call-site bounds used as parameter ranges); no negative index into "
+              "caller buffers; the accepted set of every documented 'range A...B / divisible by N' parameter equals the documented set for all 256 values. That the bytes are the specified "
+              "encoding is value-level and not decided."),
+        note=TRUST + "Encoders with struct parameters (cs_drive, cs_pom ...) have no machine-readable range documentation; their checks are covered by ONE/LEN/BND only.",
+        design="DESIGN.md section 4, C18",
+    ),
     "C12": dict(
         category="other",
         technique="static analysis: interval abstract interpretation with guard facts over the receiver thread's call tree (table subscripts, packet reads), length-guard dominance for message field reads, NULL-guard dominance for lookup results, lockset balance of receiver contexts, loop-progress rule",
